@@ -486,7 +486,7 @@ func (b *ByteSequence) Decode(d *Decoder) error {
 		return err
 	}
 	byteSequence := make([]byte, length)
-	_, err = d.buf.Read(byteSequence)
+	_, err = io.ReadFull(d.buf, byteSequence)
 	if err != nil {
 		return err
 	}
@@ -1082,7 +1082,7 @@ func (bf *Bitfield) Decode(d *Decoder) error {
 	cLog(Cyan, "Decoding Bitfield")
 
 	bytes := make([]byte, AvailBitfieldBytes)
-	_, err := d.buf.Read(bytes)
+	_, err := io.ReadFull(d.buf, bytes)
 	if err != nil {
 		return err
 	}
@@ -3261,7 +3261,7 @@ func (e *ExtrinsicData) Decode(d *Decoder) error {
 		return err
 	}
 	data := make([]byte, length)
-	if _, err := d.buf.Read(data); err != nil {
+	if _, err := io.ReadFull(d.buf, data); err != nil {
 		return err
 	}
 	cLog(Yellow, "ExtrinsicData: %x", data)
